@@ -49,10 +49,16 @@ TraceCClose == IsEvent("CClose") /\ live /\ ent' = [ent EXCEPT ![ev.h] = 0] /\ U
 TraceCClone == /\ IsEvent("CClone") /\ live /\ ev.r = "ok" /\ ent' = [ent EXCEPT ![ev.h] = 0] /\ off' = [off EXCEPT ![ev.h] = 0]
                /\ UNCHANGED <<lay, rpos, cache, ok, half, live, tpos>>
 
+\* the property in its own words, for archives of ANY kind (damaged entries, wrong passwords that pass the check byte, methods that
+\* cannot be decoded): what handle h observed step by step while the other handles were busy is what it observes when its steps run
+\* on an archive opened afresh and used by nobody else
+TraceCAlone == /\ IsEvent("CAlone") /\ ev.r = "ok" /\ Check(ev.shared = ev.alone /\ Len(ev.shared) > 0)
+               /\ UNCHANGED <<vars, live>>
+
 TraceInit == /\ l = 1 /\ live = FALSE /\ lay = <<>> /\ ent = [h \in Handles |-> 0] /\ off = [h \in Handles |-> 0]
              /\ rpos = [h \in Handles |-> 0] /\ cache = <<>> /\ ok = [h \in Handles |-> TRUE] /\ half = [h \in Handles |-> 0]
              /\ tpos = [h \in Handles |-> 0]
-TraceNext == TraceReset \/ TraceCStart \/ TraceCOpen \/ TraceCOpenFault \/ TraceCStat \/ TraceCRead \/ TraceCClose \/ TraceCClone
+TraceNext == TraceReset \/ TraceCStart \/ TraceCOpen \/ TraceCOpenFault \/ TraceCStat \/ TraceCRead \/ TraceCClose \/ TraceCClone \/ TraceCAlone
 TraceSpec == TraceInit /\ [][TraceNext]_tvars
 \* the model's invariants on the real run: the cache only ever holds the value the bytes determine
 TraceInv == live => (CacheIdempotent /\ PerHandleView)
